@@ -64,7 +64,7 @@ class Case final : public sim::CaseBase {
     if (kind < kCondVar) {
       for (int f = 0; f < fibers; ++f) {
         std::vector<Section> ss;
-        const int n = 1 + static_cast<int>(g.Draw(4));
+        const int n = 1 + static_cast<int>(g.Draw(sim::Thorough() ? 8 : 4));
         for (int i = 0; i < n; ++i) {
           Section s;
           s.acq = static_cast<int>(g.Draw(HasTimed(kind) ? kAcqCount : 2));
